@@ -474,6 +474,13 @@ public:
             K("DMem", s);
             mrefs.insert("?::" + x->getMember().getAsString());
             J.attribute("n", x->getMember().getAsString());
+            if (auto* q = x->getQualifier()) {
+                std::string qs;
+                llvm::raw_string_ostream os(qs);
+                q->print(os, PP);
+                os.flush();
+                J.attribute("qual", qs);
+            }
             if (x->isArrow()) J.attribute("arrow", true);
             if (x->isImplicitAccess()) J.attribute("impl", true);
             else child("b", x->getBase());
